@@ -306,7 +306,7 @@ func (p *Parser) Parse() (ast.Statement, error) {
 func (p *Parser) ParseSnippetVCL() ([]ast.Statement, error) {
 	var statements []ast.Statement
 
-	for !p.PeekTokenIs(token.EOF) {
+	for !p.CurTokenIs(token.EOF) {
 		var stmt ast.Statement
 		var err error
 
